@@ -498,7 +498,9 @@ pub fn check_emitted(ctx: &mut Ctx, case: &(u8, Vec<u8>, Value, bool, u8)) -> Re
 // ------------------------------------------------------------------ strategies
 
 fn bytes_s() -> impl Strategy<Value = Vec<u8>> {
-    prop_oneof![1 => Just(vec![]), 1 => Just(vec![0xfb, 0xff, 0xfe, 0xfa]), 6 => proptest::collection::vec(any::<u8>(), 0..48), 1 => proptest::collection::vec(prop_oneof![Just(0xffu8), Just(0xfe), Just(0xfb), Just(0x3e), Just(0x3f)], 1..20)]
+    prop_oneof![1 => Just(vec![]), 1 => Just(vec![0xfb, 0xff, 0xfe, 0xfa]), 24 => proptest::collection::vec(any::<u8>(), 0..48),
+        // now and then around buffer-size boundaries (lists of thousands of numbers in the array presentation)
+        1 => (prop_oneof![Just(4095usize), Just(4096), Just(4097), Just(5000), Just(8193), Just(65537)], any::<u8>()).prop_map(|(n, f)| (0..n).map(|i| f.wrapping_add((i % 251) as u8)).collect()), 4 => proptest::collection::vec(prop_oneof![Just(0xffu8), Just(0xfe), Just(0xfb), Just(0x3e), Just(0x3f)], 1..20)]
 }
 
 fn code(n: u8) -> impl Strategy<Value = u8> {
@@ -566,7 +568,9 @@ pub fn run(ctx: &mut Ctx) {
         Search::Fail(c, e) => ctx.violation("client-data", json!(c), &e),
     }
     let n = ctx.tier.pick(300u32, 100_000u32);
-    let em = (any::<u8>(), proptest::collection::vec(any::<u8>(), 0..64), json_extra(), any::<bool>(), any::<u8>());
+    // mostly small; now and then a challenge or extra client data of several KiB (clientDataJSON grows with both)
+    let big_extra = (3000usize..7000).prop_map(|n| json!({"padding": "p".repeat(n)}));
+    let em = (any::<u8>(), prop_oneof![12 => proptest::collection::vec(any::<u8>(), 0..64), 1 => bytes_s()], prop_oneof![10 => json_extra(), 1 => big_extra], any::<bool>(), any::<u8>());
     match search(ctx, 144, n, em, check_emitted) {
         Search::Pass => {}
         Search::Fail(c, e) => ctx.violation("emitted", json!(c), &e),
